@@ -52,6 +52,8 @@ def strip_q(t):
     t = t.replace('&', '').strip()
     return re.sub(r'\s+', ' ', t)
 
+OPAQUE_TYPES = []   # C06: set per translation group from cfg['opaque_types']
+
 def ctype_of_str(t):
     t = strip_q(t)
     if t == 'bool' or t == '_Bool':
@@ -69,6 +71,8 @@ def ctype_of_str(t):
         return ('arr', ctype_of_str(m.group(1)), int(m.group(2)))
     if t in ('double', 'float', 'long double'):
         return ('float',)
+    if any(x in t for x in OPAQUE_TYPES):   # C06: "opaque_types": class types (iterators) carried around as abstract Z values
+        return ('u', 64)
     return ('other', t)
 
 def ctype(n):
@@ -103,6 +107,8 @@ def coq_ty(ct):
         return 'Z'
     if ct[0] == 'pair':
         return '(Z * Z)'
+    if ct[0] == 'fnpred':   # C12: index_pred functor
+        return '(Z -> bool)'
     raise TranslationError('coq_ty: unsupported type %r' % (ct,))
 
 COQ_RESERVED = {'mod', 'in', 'end', 'at', 'as', 'fun', 'fix', 'using', 'where', 'with', 'return', 'Type', 'Set', 'Prop'}
@@ -177,11 +183,15 @@ class Fn:
                     continue
                 if nm in self.outp:
                     self.env[nm] = ctype(p)
+                    if nm in cfg.get('inout_params', {}).get(self.name, []):   # C06: reference parameter that is read AND written: input and part of the result tuple
+                        self.params.append((nm, coq_ty(ctype(p))))
                     continue
                 if nm in self.functors:
                     mode = self.functors[nm]
                     if mode == 'value':
                         self.params.append((nm, 'Z')); self.env[nm] = ('u', 64)
+                    elif mode == 'index_pred':   # C12: predicate applied to an ELEMENT of the item array: modelled as (Z -> bool) on the element index
+                        self.params.append((nm, '(Z -> bool)')); self.env[nm] = ('fnpred',)
                     continue
                 nm = coq_ident(nm)
                 ct = ctype(p)
@@ -220,6 +230,11 @@ class Fn:
             raise TranslationError('InitListExpr with %d elements' % len(n.get('inner', [])))
         if k == 'IntegerLiteral':
             return '(' + n['value'] + ')'
+        if k == 'FloatingLiteral':   # C11: double arithmetic is modelled by exact rationals (Q); only integral literals occur (8.0, 12.0 ...)
+            v = float(n['value'])
+            if v != int(v) or v < 0:
+                raise TranslationError('floating literal ' + str(n['value']))
+            return '(inject_Z (%d))' % int(v)
         if k == 'CXXBoolLiteralExpr':
             return 'true' if n['value'] else 'false'
         if k == 'CharacterLiteral':
@@ -235,6 +250,13 @@ class Fn:
             return f'({base} {idx})'
         if k == 'MemberExpr':
             return self.member(n)
+        if k in ('CXXMemberCallExpr', 'CXXOperatorCallExpr') and self.memobj(n) is not None:   # C16: vector-like member sub-object
+            mo, meth, margs = self.memobj(n)
+            if meth == 'GetCount' and not margs:
+                return mo['n']
+            if meth == 'operator[]' and len(margs) == 1:
+                return f"({mo['arr']} {self.e(margs[0])})"
+            raise TranslationError('member object method %s used as an expression' % meth)
         if k in ('CXXMemberCallExpr', 'CallExpr'):
             return self.call_expr(n)
         if k == 'CXXOperatorCallExpr':
@@ -260,6 +282,9 @@ class Fn:
                 return a
             if op == '~':
                 return wrap(ct, f'(Z.lnot {a})')
+            if op == '*' and self.ctx.cfg.get('deref'):
+                # C15 ("deref": "<section var : Z -> Z>"): a read through a pointer (e.g. *mContainerVersion) is the abstract memory read
+                return f"({self.ctx.cfg['deref']} {a})"
             raise TranslationError('unary operator ' + op)
         if k == 'BinaryOperator':
             return self.binop(n['opcode'], n['inner'][0], n['inner'][1], ctype(n))
@@ -272,6 +297,12 @@ class Fn:
             return '(0)'
         if k == 'CXXConstructExpr' and len(n.get('inner', [])) == 1:
             return self.e(n['inner'][0])
+        if k == 'CXXConstructExpr' and len(n.get('inner', [])) == 2 and self.ctx.cfg.get('opaque_types') \
+                and 'pair<' in (n.get('type', {}).get('desugaredQualType') or n.get('type', {}).get('qualType', '')):
+            return f'({self.e(n["inner"][0])}, {self.e(n["inner"][1])})'   # C06: std::pair<iterator, bool>{ it, flag }
+        if k in ('CXXConstructExpr', 'CXXTemporaryObjectExpr', 'CXXScalarValueInitExpr') and not n.get('inner') \
+                and self.name in self.ctx.cfg.get('null_construct', []):
+            return '(0)'   # C12: `return Iterator();` of a function listed in "null_construct": the null iterator
         if k == 'CXXDefaultArgExpr':
             raise TranslationError('default argument expression')
         raise TranslationError('expression kind ' + k)
@@ -366,6 +397,9 @@ class Fn:
                 return f'({"fst" if nm == "first" else "snd"} {bn})'
         if base['kind'] in ('CallExpr', 'CXXMemberCallExpr') and nm in ('first', 'second'):
             return f'({"fst" if nm == "first" else "snd"} {self.e(base)})'
+        mp_ = self.ctx.cfg.get('member_prims', {}).get(nm)   # C06: "member_prims": {"first": "key_of_elem"}: a data member of an opaque value
+        if mp_ is not None:
+            return f'({mp_} {self.e(base)})'
         raise TranslationError('member expression %s on %s' % (nm, base['kind']))
 
     def callee_name(self, n):
@@ -399,7 +433,18 @@ class Fn:
             return f'({fld} {idx})'
         prim = self.ctx.cfg.get('primitives', {}).get(nm)
         if prim is not None:
-            return '(' + ' '.join([prim] + [self.e(a) for a in args]) + ')'
+            obj_ = []
+            if nm in self.ctx.cfg.get('object_prims', []) and c.get('kind') == 'MemberExpr':   # C06: "object_prims": the implicit object is the first argument (conversion operators, keyIter->GetCount())
+                obj_ = [self.e(c['inner'][0])]
+            dfl_ = list(self.ctx.cfg.get('prim_defaults', {}).get(nm, []))   # C06: "prim_defaults": {"MakeIterator": ["0"]}: literal text for defaulted arguments; otherwise they are dropped (std::next(it))
+            argt_ = []
+            for a in args:
+                if a.get('kind') == 'CXXDefaultArgExpr':
+                    if dfl_:
+                        argt_.append('(' + dfl_.pop(0) + ')')
+                else:
+                    argt_.append(self.e(a))
+            return '(' + ' '.join([prim] + obj_ + argt_) + ')'
         if nm in ('minmax',):
             a, b = [self.e(x) for x in args]
             return f'(if Z.ltb {b} {a} then ({b}, {a}) else ({a}, {b}))'
@@ -446,7 +491,77 @@ class Fn:
             return []
         return list(self.fieldnames)
 
+    def memobj(self, n):
+        """C16: "member_object_ops": {"mSegments": {"n": "mSegments_n", "arr": "mSegments"}} -- a vector-like member
+        sub-object (momo::Array of pointers) modelled by two configured fields (element count, element array):
+        GetCount() -> n; operator[](i) -> arr i; AddBackNogrow(x) -> arr[n] := x, n := n + 1; RemoveBack(k) -> n := n - k
+        (Stuck when k > n, the callee's MOMO_CHECK); Clear(..) -> n := 0; Reserve / Shrink -> no effect on (n, arr).
+        Returns (objcfg, method, argnodes) or None."""
+        cfgm = self.ctx.cfg.get('member_object_ops')
+        if not cfgm:
+            return None
+        n = skip_wrappers(n)
+        def strip(x):
+            x = skip_wrappers(x)
+            while x.get('kind') == 'ImplicitCastExpr':
+                x = skip_wrappers(x['inner'][0])
+            return x
+        if n.get('kind') == 'CXXMemberCallExpr':
+            c = strip(n['inner'][0])
+            if c.get('kind') == 'MemberExpr' and c.get('inner'):
+                b = strip(c['inner'][0])
+                if b.get('kind') == 'MemberExpr' and b.get('name') in cfgm and \
+                        (not b.get('inner') or strip(b['inner'][0]).get('kind') == 'CXXThisExpr'):
+                    return cfgm[b['name']], c['name'], n['inner'][1:]
+        if n.get('kind') == 'CXXOperatorCallExpr' and len(n.get('inner', [])) == 3:
+            try:
+                opn, _ = self.callee_name(n)
+            except TranslationError:
+                return None
+            b = strip(n['inner'][1])
+            if opn == 'operator[]' and b.get('kind') == 'MemberExpr' and b.get('name') in cfgm:
+                return cfgm[b['name']], 'operator[]', n['inner'][2:]
+        return None
+
+    def memobj_stmt(self, s0, rest):
+        mo, meth, margs = self.memobj(s0)
+        nn, arr = mo['n'], mo['arr']
+        if meth in ('Reserve', 'Shrink'):
+            return rest()
+        if meth == 'AddBackNogrow' and len(margs) == 1:
+            v = self.e(margs[0]); self.note_write(arr); self.note_write(nn)
+            return f'let {arr} := upd {arr} {nn} {v} in\nlet {nn} := (wrapU 64 ({nn} + 1)) in\n{rest()}'
+        if meth == 'RemoveBack' and len(margs) <= 1:
+            kx = self.e(margs[0]) if margs else '(1)'
+            self.note_write(nn); self.nonsimple = True
+            return f'if Z.leb {kx} {nn} then (\nlet {nn} := (wrapU 64 ({nn} - {kx})) in\n{rest()})\nelse Stuck'
+        if meth == 'Clear':
+            self.note_write(nn)
+            return f'let {nn} := (0) in\n{rest()}'
+        raise TranslationError('member object method %s as a statement' % meth)
+
     def opcall(self, n):
+        # C09: `mArr[i]` where mArr is a configured "array" field of class type (momo::Array::operator[]) -> (mArr i)
+        if len(n.get('inner', [])) == 3:
+            try:
+                opn0, _ = self.callee_name(n)
+            except TranslationError:
+                opn0 = None
+            obj0 = skip_wrappers(n['inner'][1])
+            while obj0.get('kind') == 'ImplicitCastExpr':
+                obj0 = skip_wrappers(obj0['inner'][0])
+            if opn0 == 'operator[]' and obj0.get('kind') == 'MemberExpr' and self.ctx.fields.get(obj0.get('name')) == 'array' \
+                    and obj0.get('name') in self.env:
+                return '(%s %s)' % (obj0['name'], self.e(n['inner'][2]))
+        # C06: "operator_prims": {"operator==": "it_eqb", ...}: an overloaded operator on opaque values is a configured Gallina function
+        ops_ = self.ctx.cfg.get('operator_prims')
+        if ops_:
+            try:
+                opn_, _ = self.callee_name(n)
+            except TranslationError:
+                opn_ = None
+            if opn_ in ops_:
+                return '(' + ' '.join([ops_[opn_]] + [self.e(a) for a in n['inner'][1:]]) + ')'
         # C12: `functor()` with no arguments where the functor parameter is configured as "value": its result is the parameter
         if len(n.get('inner', [])) == 2:
             callee = skip_wrappers(n['inner'][1])
@@ -464,6 +579,23 @@ class Fn:
                 if (pn, 'Z') not in self.extra_params:
                     self.extra_params.append((pn, 'Z'))
                 return pn
+        # C12: `itemPred(items[i])` / `itemPred((&mItems)[i])` / `itemPred(*&mItemBuffer)` with the functor configured as "index_pred":
+        # the predicate is a Gallina function of the element INDEX (the base must be an opaque pointer local or an "address_of" member)
+        if len(n.get('inner', [])) == 3:
+            callee = skip_wrappers(n['inner'][1])
+            while callee.get('kind') == 'ImplicitCastExpr':
+                callee = skip_wrappers(callee['inner'][0])
+            if callee.get('kind') == 'DeclRefExpr' and self.functors.get(callee['referencedDecl']['name']) == 'index_pred':
+                arg = skip_wrappers(n['inner'][2])
+                while arg.get('kind') == 'ImplicitCastExpr':
+                    arg = skip_wrappers(arg['inner'][0])
+                if arg.get('kind') == 'ArraySubscriptExpr':
+                    self.e(arg['inner'][0])          # the base must translate (opaque pointer / address_of member), its value is not used
+                    return f'({callee["referencedDecl"]["name"]} {self.e(arg["inner"][1])})'
+                if arg.get('kind') == 'UnaryOperator' and arg.get('opcode') == '*':
+                    self.e(arg['inner'][0])
+                    return f'({callee["referencedDecl"]["name"]} (0))'
+                raise TranslationError('index_pred functor applied to ' + str(arg.get('kind')))
         raise TranslationError('operator call')
 
     def binop(self, op, ln, rn, ct):
@@ -486,6 +618,11 @@ class Fn:
         return self.arith(op, a, b, ct)
 
     def arith(self, op, a, b, ct):
+        if ct[0] == 'float':   # C11: double arithmetic is modelled by exact rationals (Q)
+            qop = {'+': 'Qplus', '-': 'Qminus', '*': 'Qmult', '/': 'Qdiv'}.get(op)
+            if qop is None:
+                raise TranslationError('floating operator ' + op)
+            return f'({qop} {a} {b})'
         if ct[0] == 'ptr':
             if op in ('+', '-'):
                 return f'({a} {op} {b})'
@@ -534,6 +671,15 @@ class Fn:
             if t[0] == 'bool':
                 return f'(negb (Z.eqb {a} 0))'
             raise TranslationError('IntegralCast to %r' % (t,))
+        if ck == 'IntegralToFloating':   # C11
+            return f'(inject_Z {self.e(inner)})'
+        if ck == 'FloatingCast':
+            return self.e(inner)
+        if ck == 'FloatingToIntegral':   # truncation = floor for the non-negative values that occur
+            t = ctype(n)
+            if t[0] != 'u':
+                raise TranslationError('FloatingToIntegral to %r' % (t,))
+            return wrap(t, f'(Qfloor {self.e(inner)})')
         if ck == 'IntegralToBoolean':
             return f'(negb (Z.eqb {self.e(inner)} 0))'
         if ck == 'PointerToBoolean':
@@ -620,8 +766,35 @@ class Fn:
             return acc
         if (k == 'BinaryOperator' and n.get('opcode') == '=') or k == 'CompoundAssignOperator':
             acc.add(self.lhs_name(n['inner'][0]))
+        if k == 'CXXOperatorCallExpr' and self.ctx.cfg.get('opaque_types') and len(n.get('inner', [])) == 3:   # C06: opaque `x = y;`
+            try:
+                if self.callee_name(n)[0] == 'operator=':
+                    acc.add(self.lhs_name(n['inner'][1]))
+            except TranslationError:
+                pass
+        if k in ('CXXMemberCallExpr', 'CallExpr') and self.ctx.cfg.get('effect_calls'):   # C06: an effect call writes its field
+            try:
+                en_ = self.ctx.cfg['effect_calls'].get(self.callee_name(n)[0])
+                if en_ is not None:
+                    acc.add(en_[0])
+            except TranslationError:
+                pass
         if k == 'UnaryOperator' and n.get('opcode') in ('++', '--'):
-            acc.add(self.lhs_name(n['inner'][0]))
+            tgt_ = skip_wrappers(n['inner'][0])
+            if not (self.ctx.cfg.get('assert_calls') and tgt_['kind'] in ('CXXMemberCallExpr', 'CallExpr')):   # C14: ++obj.Accessor() assigns no field
+                acc.add(self.lhs_name(n['inner'][0]))
+        if k in ('CXXMemberCallExpr', 'CXXOperatorCallExpr') and self.memobj(n) is not None:   # C16
+            mo, meth, _a = self.memobj(n)
+            if meth == 'AddBackNogrow': acc.update([mo['arr'], mo['n']])
+            if meth in ('RemoveBack', 'Clear'): acc.add(mo['n'])
+        if k == 'CallExpr' and self.ctx.cfg.get('out_calls'):   # C16
+            try:
+                onm, _ = self.callee_name(n)
+                oc = self.ctx.cfg['out_calls'].get(onm)
+                if oc is not None:
+                    for i in oc['outs']: acc.add(self.lhs_name(n['inner'][1:][i]))
+            except TranslationError:
+                pass
         if k in ('CXXMemberCallExpr', 'CallExpr'):
             try:
                 nm, _ = self.callee_name(n)
@@ -734,7 +907,7 @@ class Fn:
             return jc['ret']('tt')
         if kind == 'GallinaReturn':   # C09: synthetic return of a "prefix" translation
             for nm in re.findall(r'\w+', s['text']):
-                if nm not in self.env: raise TranslationError('prefix return: %s is not in scope' % nm)
+                if nm not in self.env and nm != 'tt': raise TranslationError('prefix return: %s is not in scope' % nm)   # C05: empty tuple
             return jc['ret'](s['text'])
         if kind == 'BreakStmt':
             if not jc.get('brk'): raise TranslationError('break outside loop')
@@ -742,6 +915,14 @@ class Fn:
         if kind == 'ContinueStmt':
             if not jc.get('cont'): raise TranslationError('continue outside loop')
             return jc['cont']()
+        if kind == 'DoStmt' and self.ctx.cfg.get('check_exceptions') and len(s.get('inner', [])) == 2 and \
+                skip_wrappers(s['inner'][1]).get('kind') in ('CXXBoolLiteralExpr', 'ImplicitCastExpr') and \
+                json.dumps(s['inner'][1]).count('"value": false') == 1:
+            # C15 ("check_exceptions": true): MOMO_CHECK(e) = do { MOMO_ASSERT(mode != assertion || e);
+            #   if (mode == exception) MOMO_CHECK_EXCEPTION(e); } while (false)  -- translate the BODY once, so that the
+            #   exception branch (throw -> Exn) is kept next to the assertion obligation (-> Stuck) instead of being dropped
+            b = s['inner'][0]
+            return self.stmts((b.get('inner', []) if b['kind'] == 'CompoundStmt' else [b]) + lst[1:], k, jc)
         if is_assert_stmt(s) and kind not in ('IfStmt', 'WhileStmt', 'ForStmt'):
             c = find_assert_cond(s)
             if c is None:
@@ -752,6 +933,8 @@ class Fn:
             return self.if_stmt(s, rest, jc)
         if kind in ('WhileStmt', 'ForStmt'):
             return self.loop(s, rest, jc)
+        if kind == 'CXXTryStmt' and self.ctx.cfg.get('try_as_body'):   # C16: exceptions are not modelled: the try block alone
+            return self.stmts([s['inner'][0]] + lst[1:], k, jc)
         if kind == 'DoStmt':
             raise TranslationError('do-while loop')
         if kind == 'CXXThrowExpr' or (kind == 'ExprWithCleanups' and skip_wrappers(s)['kind'] == 'CXXThrowExpr'):
@@ -769,6 +952,8 @@ class Fn:
             if i == len(vs):
                 return rest()
             v = vs[i]; nm = v['name']
+            if nm in self.ctx.cfg.get('skip_locals', {}).get(self.name, []):   # C16: e.g. `MemManager& memManager = GetMemManager();` (a later use is an error)
+                return go(i + 1)
             if nm in self.env and nm not in self.opaque:
                 raise TranslationError(f'shadowing/redeclaration of {nm} in {self.name}')
             if v.get('storageClass') == 'static' and not (
@@ -862,6 +1047,24 @@ class Fn:
     def expr_stmt(self, s, rest):
         s0 = skip_wrappers(s)
         k = s0['kind']
+        if k in ('CXXMemberCallExpr', 'CXXOperatorCallExpr') and self.memobj(s0) is not None:   # C16
+            return self.memobj_stmt(s0, rest)
+        if k == 'BinaryOperator' and s0.get('opcode') == ',' and self.ctx.cfg.get('comma_sequence'):   # C16: `++i, ++n` in a for-increment
+            return self.expr_stmt(s0['inner'][0], lambda: self.expr_stmt(s0['inner'][1], rest))
+        if k == 'CallExpr' and self.ctx.cfg.get('out_calls'):   # C16: f(in.., out&..) of another class -> let '(outs) := prim ins
+            try:
+                onm, _ = self.callee_name(s0)
+            except TranslationError:
+                onm = None
+            oc = self.ctx.cfg['out_calls'].get(onm)
+            if oc is not None:
+                args = s0['inner'][1:]
+                ins = [self.e(args[i]) for i in oc['ins']]
+                outs = [self.lhs_name(args[i]) for i in oc['outs']]
+                for o in outs:
+                    if o not in self.env: raise TranslationError('out argument %s is not a local in scope' % o)
+                    self.note_write(o)
+                return f"let '({', '.join(outs)}) := ({' '.join([oc['prim']] + ins)}) in\n{rest()}"
         if k == 'BinaryOperator' and s0['opcode'] == '=':
             rhs = skip_wrappers(s0['inner'][1])
             if rhs['kind'] in ('CXXMemberCallExpr', 'CallExpr') and self.is_nonsimple_call(rhs):
@@ -881,24 +1084,54 @@ class Fn:
                 val = self.conv(val, comp, lt)
             return self.assign_to(lhs, val, rest)
         if k == 'UnaryOperator' and s0['opcode'] in ('++', '--'):
-            v = s0['inner'][0]; ct = ctype(s0); a = self.e(v)
+            v = s0['inner'][0]; ct = ctype(s0)
+            # C14: `++obj.Accessor();` where Accessor is listed in "assert_calls" (see below): only the callee's assertion is modelled
+            vv = skip_wrappers(v)
+            if vv['kind'] in ('CXXMemberCallExpr', 'CallExpr'):
+                try:
+                    anm, _ = self.callee_name(vv)
+                except TranslationError:
+                    anm = None
+                if anm in self.ctx.cfg.get('assert_calls', {}):
+                    self.nonsimple = True
+                    return f"if {self.ctx.cfg['assert_calls'][anm]} then Stuck else (\n{rest()})"
+            a = self.e(v)
             return self.assign_to(v, wrap(ct, f'({a} {"+" if s0["opcode"]=="++" else "-"} 1)'), rest)
         if k in ('CXXMemberCallExpr', 'CallExpr', 'CXXOperatorCallExpr'):
             try:
                 nm, c = self.callee_name(s0)
             except TranslationError:
                 nm = None
+            # C14: "assert_calls": {callee name: Gallina bool}: a call into another object (e.g. mCrew.IncVersion(),
+            # MemManagerProxy::Deallocate(GetMemManager(), ...)) whose callee begins with MOMO_ASSERT(!<bool>): the statement
+            # becomes that obligation (Stuck when the bool holds); the callee's contract is checked separately by the property.
+            rid0_ = (c.get('referencedMemberDecl') or (c.get('referencedDecl') or {}).get('id')) if (nm is not None and c) else None
+            if nm in self.ctx.cfg.get('assert_calls', {}) and not (rid0_ is not None and rid0_ in self.ctx.fninfo_id):
+                self.nonsimple = True
+                return f"if {self.ctx.cfg['assert_calls'][nm]} then Stuck else (\n{rest()})"
             if k == 'CXXOperatorCallExpr':
                 # functor(...) call
                 callee = skip_wrappers(s0['inner'][1]) if len(s0['inner']) > 1 else None
                 fname = self.functor_of(s0)
                 if fname and self.functors.get(fname) == 'skip':
                     return rest()
+                if nm == 'operator=' and self.ctx.cfg.get('opaque_types') and len(s0['inner']) == 3:   # C06: assignment between opaque (class-type) values
+                    return self.assign_to(s0['inner'][1], self.e(s0['inner'][2]), rest)
                 raise TranslationError('operator call statement')
             if nm in self.functors and self.functors[nm] == 'skip':
                 return rest()
+            eff_ = self.ctx.cfg.get('effect_calls', {}).get(nm)
+            if eff_ is not None:   # C06: "effect_calls": {"clear": ["st", "ev_clear"]}: a call statement whose effect is field := fn field args
+                fld_, fn_ = eff_
+                if fld_ not in self.ctx.fields:
+                    raise TranslationError('effect_calls: %s is not a configured field' % fld_)
+                self.note_write(fld_)
+                return f'let {fld_} := (' + ' '.join([fn_, fld_] + [self.e(a) for a in s0['inner'][1:]]) + f') in\n{rest()}'
             if nm in self.ctx.cfg.get('skip_calls', []):
-                return rest()
+                # C14: a skipped NAME does not hide a call to an overload that IS translated (pvDestroy() vs pvDestroy(Node*))
+                rid_ = (c.get('referencedMemberDecl') or (c.get('referencedDecl') or {}).get('id')) if c else None
+                if not (rid_ is not None and rid_ in self.ctx.fninfo_id):
+                    return rest()
             if nm == 'fill_n' and k == 'CallExpr' and len(s0['inner']) == 4:
                 # C12: std::fill_n(field, n, v) on a configured array field
                 b = self.lv_base(s0['inner'][1])
@@ -966,7 +1199,9 @@ class Fn:
             self.env = dict(saved)
             e_txt = self.stmts([el], lambda: self.tup(vs), jc) if el else self.tup(vs)
             self.env = dict(saved)
-            if not vs:
+            if not vs and not (self.returns_outcome_inside(t_txt) or self.returns_outcome_inside(e_txt)):
+                # a branch that assigns nothing AND carries no obligation (assertion / throw / stuck call) is dropped; one that
+                # carries an obligation is kept (duplication form below). (Found by C14; checked 2026-10-01: no existing gen config changes.)
                 return rest()
             if self.returns_outcome_inside(t_txt) or self.returns_outcome_inside(e_txt):
                 # branch contains a non-simple call (match ... Stuck); fall back to duplication
@@ -1029,9 +1264,13 @@ class Fn:
 
     def used_names(self, n, acc):
         k = n.get('kind')
+        if k in ('CXXMemberCallExpr', 'CXXOperatorCallExpr') and self.memobj(n) is not None:   # C16
+            mo = self.memobj(n)[0]; acc.update([mo['n'], mo['arr']])
         if k == 'DeclRefExpr':
             acc.add(n['referencedDecl']['name'])
         if k == 'MemberExpr':
+            if n.get('name') in self.ctx.cfg.get('address_of', []):   # C12: &member inside a loop body: the opaque address is loop context
+                acc.add('addr_' + n['name'])
             try:
                 acc.add(self.member(n))
             except TranslationError:
@@ -1092,7 +1331,8 @@ class Fn:
                      f'    if {ctext} then (\n{body_txt})\n    else {mk_res("None", self.tup(vs))}.\n'
                      f'Proof. reflexivity. Qed.')
             self.loops[idx] = fix + '\n\n' + lemma
-            call = f'{lname} (fuel_of_{self.out}) ' + ' '.join(ctxv + vs)
+            fuel_inline = self.ctx.cfg.get('fuel_inline', {}).get(self.name)   # C16: fuel as an expression over names in scope at the loop
+            call = f'{lname} ({fuel_inline if fuel_inline else "fuel_of_" + self.out}) ' + ' '.join(ctxv + vs)
             if has_ret:
                 r = self.fresh('r')
                 return (f'match {call} with\n| Ok (Some {r}, _) => {jc["ret"](r)}\n'
@@ -1118,10 +1358,24 @@ class Fn:
         if pf:
             cut = [i for i, st in enumerate(body.get('inner', [])) if st.get('kind') == 'DeclStmt' and
                    any(v.get('name') == pf['until'] for v in st.get('inner', []))] if pf.get('until') else [len(body.get('inner', []))]
+            if pf.get('until_stmt') is not None:   # C05: cut after the first k top-level statements (the guards of the function)
+                cut = [int(pf['until_stmt'])] if int(pf['until_stmt']) <= len(body.get('inner', [])) else []
             if not cut:
                 raise TranslationError('prefix: no declaration of %s in %s' % (pf['until'], self.name))
             ret_node = {'kind': 'GallinaReturn', 'text': self.tup(list(pf['return']))}
             body = dict(body, inner=body['inner'][:cut[0]] + [ret_node])
+        # C12: "address_of" members mentioned in the body become opaque parameters up front (so that loops can carry them)
+        for am in self.ctx.cfg.get('address_of', []):
+            jb = json.dumps(body)
+            if ('"name": "%s"' % am) in jb and ('"kind": "ForStmt"' in jb or '"kind": "WhileStmt"' in jb) \
+                    and ('addr_' + am, 'Z') not in self.extra_params:
+                self.extra_params.append(('addr_' + am, 'Z')); self.env['addr_' + am] = ('u', 64)
+        # C12: opaque locals of a function with loops are parameters from the start (a loop body may declare and use them)
+        jb0 = json.dumps(body)
+        if '"kind": "ForStmt"' in jb0 or '"kind": "WhileStmt"' in jb0:
+            for on in sorted(self.opaque):
+                if (on, 'Z') not in self.extra_params and on not in self.env:
+                    self.extra_params.append((on, 'Z')); self.env[on] = ('u', 64)
         # pre-scan: does the function need the outcome monad?
         self.nonsimple = self.prescan(body)
         wf_guess = None
@@ -1156,7 +1410,11 @@ class Fn:
         out = []
         if self.loops:
             out.append(f'Definition fuel_of_{self.out} : nat := {self.fuel}.')
-        out.extend(self.loops)
+        loops = list(self.loops)
+        # C16: a nested loop gets a higher index than the loop containing it but must be defined first
+        if any(re.search(r'\b%s_loop%d\b' % (re.escape(self.out), j), loops[i]) for i in range(len(loops)) for j in range(i + 1, len(loops))):
+            loops.reverse()
+        out.extend(loops)
         out.append(f'Definition {self.out} {params} :=\n{txt}.')
         return '\n\n'.join(out)
 
@@ -1274,6 +1532,8 @@ def load_enums(cfg, repo='/repo'):
 
 def translate_group(cfg, ast_text=None, repo='/repo'):
     """returns Gallina text; raises TranslationError"""
+    global OPAQUE_TYPES
+    OPAQUE_TYPES = list(cfg.get('opaque_types', []))   # C06
     if ast_text is None:
         ast_text = dump_ast(cfg, repo)
     objs = load_objs(ast_text)
